@@ -17,13 +17,22 @@ def sh(cmd, cwd=None, timeout=1800):
     return p.returncode, (p.stdout + p.stderr)
 
 # the patch = diff of tracked files in the worktree (excluding demo / patch files)
-rc, diff = sh("git diff -- . ':(exclude)demo.sh' ':(exclude)patch.diff'", cwd=wt)
+rc, diff = sh("git diff -- core/src cli/src", cwd=wt)
 open(os.path.join(d, "patch.diff"), "w").write(diff)
 for f in os.listdir(wt):
     if f.startswith("demo"):
         shutil.copy(os.path.join(wt, f), os.path.join(d, f))
 meta = {"seed": seed, "property": prop, "files_changed": [l[6:] for l in diff.splitlines() if l.startswith("+++ b/")]}
+# extra demonstration tests added by the seeding agent are not part of the 89-test suite: move them aside for the suite run
+extra = [os.path.join(wt, "core/tests/demo.rs"), os.path.join(wt, "cli/tests/demo.rs")]
+for e in extra:
+    if os.path.exists(e):
+        shutil.copy(e, os.path.join(d, os.path.basename(os.path.dirname(os.path.dirname(e))) + "_tests_demo.rs"))
+        os.rename(e, e + ".aside")
 rc, out = sh("cargo test --workspace --offline 2>&1 | grep -E 'test result' ", cwd=wt)
+for e in extra:
+    if os.path.exists(e + ".aside"):
+        os.rename(e + ".aside", e)
 passed = sum(int(x.split(" passed")[0].split()[-1]) for x in out.splitlines() if " passed" in x)
 failed = sum(int(x.split(" failed")[0].split()[-1]) for x in out.splitlines() if " failed" in x)
 meta["tests_with_change"] = {"passed": passed, "failed": failed}
